@@ -1,6 +1,138 @@
 // Per-connection state machines (CryptoCore, RotationState, InitState, PeerCrypto).
 use super::{hex, num, unhex};
+use crate::crypto::verif_core as hc;
+use crate::crypto::verif_core::{CryptoCore};
+use crate::util::MsgBuffer;
+use ring::aead::{self, LessSafeKey, UnboundKey};
 
-pub fn run(_op: &str, _a: &[&str]) -> Option<String> {
-    None
+pub fn algo(name: &str) -> &'static aead::Algorithm {
+    match name {
+        "aes128" => &aead::AES_128_GCM,
+        "aes256" => &aead::AES_256_GCM,
+        "chacha" => &aead::CHACHA20_POLY1305,
+        _ => panic!("unknown algo"),
+    }
+}
+
+/// deterministic key material for a symbolic key name
+pub fn key_material(id: u64, len: usize) -> Vec<u8> {
+    // injective: the name itself in the first 8 bytes, a fixed pattern behind it
+    let idb = id.to_be_bytes();
+    (0..len).map(|i| if i < 8 { idb[i] } else { (i as u8).wrapping_mul(7).wrapping_add(1) }).collect()
+}
+
+pub fn mk_key(a: &'static aead::Algorithm, id: u64) -> LessSafeKey {
+    LessSafeKey::new(UnboundKey::new(a, &key_material(id, a.key_len())).unwrap())
+}
+
+fn start_nonce(half: bool, rnd6: &[u8]) -> Vec<u8> {
+    let mut n = vec![0u8; 12];
+    n[0] = if half { 0x80 } else { 0 };
+    n[6..].copy_from_slice(rnd6);
+    n
+}
+
+fn core_scenario(a: &[&str]) -> String {
+    let alg = algo(a[0]);
+    let key: u64 = num(a[1]);
+    let ra: Vec<Vec<u8>> = a[2].split(',').map(unhex).collect();
+    let rb: Vec<Vec<u8>> = a[3].split(',').map(unhex).collect();
+    let mut ca = CryptoCore::new(mk_key(alg, key), true);
+    let mut cb = CryptoCore::new(mk_key(alg, key), false);
+    for i in 0..4 {
+        hc::set_send_nonce(&mut ca, i, &start_nonce(true, &ra[i]));
+        hc::set_send_nonce(&mut cb, i, &start_nonce(false, &rb[i]));
+    }
+    let mut sent: Vec<Vec<u8>> = vec![];
+    let mut out: Vec<String> = vec![];
+    for tok in &a[4..] {
+        let p: Vec<&str> = tok.split('.').collect();
+        let is_b = p[1] == "b";
+        let core = if is_b { &mut cb } else { &mut ca };
+        let mut deliver = |core: &mut CryptoCore, bytes: &[u8]| -> String {
+            let mut buf = MsgBuffer::new(8);
+            buf.clone_from(bytes);
+            let r = std::panic::catch_unwind(std::panic::AssertUnwindSafe(|| core.decrypt(&mut buf)));
+            match r {
+                Ok(Ok(())) => format!("ok:{}", hex(buf.message())),
+                Ok(Err(_)) => "err".to_string(),
+                Err(_) => "panic".to_string(),
+            }
+        };
+        match p[0] {
+            "s" => {
+                let mut buf = MsgBuffer::new(8);
+                buf.clone_from(&unhex(p[2]));
+                core.encrypt(&mut buf);
+                let m = buf.message().to_vec();
+                out.push(format!("S{}:{}:{}", m[0], hex(&m[1..8]), m.len()));
+                sent.push(m);
+            }
+            "d" => {
+                let i: usize = num(p[2]);
+                if i < sent.len() {
+                    let d = sent[i].clone();
+                    out.push(deliver(core, &d));
+                } else {
+                    out.push("-".into());
+                }
+            }
+            "f" => {
+                let i: usize = num(p[2]);
+                let pos: usize = num(p[3]);
+                let bit: u32 = num(p[4]);
+                if i < sent.len() && pos < sent[i].len() {
+                    let mut d = sent[i].clone();
+                    d[pos] ^= 1u8 << bit;
+                    out.push(deliver(core, &d));
+                } else {
+                    out.push("-".into());
+                }
+            }
+            "t" => {
+                let i: usize = num(p[2]);
+                let len: usize = num(p[3]);
+                if i < sent.len() {
+                    let mut d = sent[i].clone();
+                    d.truncate(len);
+                    out.push(deliver(core, &d));
+                } else {
+                    out.push("-".into());
+                }
+            }
+            "r" => {
+                let d = unhex(p[2]);
+                out.push(deliver(core, &d));
+            }
+            "k" => {
+                core.every_second();
+                out.push("-".into());
+            }
+            "n" => {
+                let kid: u64 = num(p[2]);
+                let id: u64 = num(p[3]);
+                let use_: bool = p[4] == "1";
+                let rnd = unhex(p[5]);
+                let half = hc::nonce_half(core);
+                core.rotate_key(mk_key(alg, kid), id, use_);
+                hc::set_send_nonce(core, (id % 4) as usize, &start_nonce(half, &rnd));
+                out.push("-".into());
+            }
+            "p" => {
+                let (cur, st) = hc::dump(core);
+                let s: Vec<String> =
+                    st.iter().map(|(a, b, c, d)| format!("{}/{}/{}/{}", hex(a), hex(b), hex(c), hex(d))).collect();
+                out.push(format!("st:{}:{}", cur, s.join(",")));
+            }
+            _ => panic!("bad core op"),
+        }
+    }
+    out.join(" ")
+}
+
+pub fn run(op: &str, a: &[&str]) -> Option<String> {
+    Some(match op {
+        "core" => core_scenario(a),
+        _ => return None,
+    })
 }
